@@ -436,8 +436,36 @@ pub fn stats_json(all: &BTreeMap<String, OpStats>) -> Json {
 
 use super::ref_eval::Event;
 
-/// First index at which two structural traces differ.
+/// Canonical form of a structural trace: the table layouter fills the default rows of the table
+/// columns in the iteration order of a hash map, so the relative order of consecutive
+/// `FillFromRow` events carries no meaning (and differs from run to run); sort each such run.
+pub fn normalise_trace(t: &[Event]) -> Vec<Event> {
+    let mut out: Vec<Event> = Vec::with_capacity(t.len());
+    let mut i = 0;
+    while i < t.len() {
+        if matches!(t[i], Event::FillFromRow { .. }) {
+            let mut j = i;
+            while j < t.len() && matches!(t[j], Event::FillFromRow { .. }) {
+                j += 1;
+            }
+            let mut run: Vec<Event> = t[i..j].to_vec();
+            run.sort_by_key(|e| match e {
+                Event::FillFromRow { column, row, value } => (*column, *row, value.clone()),
+                _ => unreachable!(),
+            });
+            out.extend(run);
+            i = j;
+        } else {
+            out.push(t[i].clone());
+            i += 1;
+        }
+    }
+    out
+}
+
+/// First index at which two structural traces (in canonical form) differ.
 pub fn first_trace_divergence(a: &[Event], b: &[Event]) -> Option<(usize, String, String)> {
+    let (a, b) = (&normalise_trace(a), &normalise_trace(b));
     let n = a.len().max(b.len());
     for i in 0..n {
         if a.get(i) != b.get(i) {
@@ -512,7 +540,7 @@ pub fn structure_check<O: OpSpec>(op: &O, inputs: &[O::In], mbl: u8, prop: &str,
     };
     // control: same (unknown) input twice must give the same trace, else nondeterminism
     if let Ok(again) = relation_trace(&rel, k, mbl, Value::unknown(), Value::unknown(), 0, false) {
-        if again.0 != base.0 {
+        if first_trace_divergence(&again.0, &base.0).is_some() {
             rep.inconclusive(&format!("{name}: control run (unknown witness twice) differs — nondeterministic synthesis (C17)"));
             return;
         }
